@@ -177,6 +177,22 @@ type Times struct {
 	N   int64          `parquet:"n"`
 }
 
+// NestedTimes: time.Time / time.Duration fields (optional and required) inside
+// an optional group, a repeated group and a required group.
+type TimeInner struct {
+	OT time.Time     `parquet:"ot,optional,timestamp(millisecond)"`
+	T  time.Time     `parquet:"t,timestamp(microsecond)"`
+	OD time.Duration `parquet:"od,optional,time(microsecond)"`
+	D  time.Time     `parquet:"d,date"`
+}
+
+type NestedTimes struct {
+	ID int64       `parquet:"id"`
+	P  *TimeInner  `parquet:"p"`
+	L  []TimeInner `parquet:"l"`
+	G  TimeInner   `parquet:"g"`
+}
+
 // NestedMaps: maps whose values are maps (the reader rebuilds them through a
 // scratch key/value pair reused from one entry to the next).
 type NestedMaps struct {
@@ -242,7 +258,8 @@ type Entry struct {
 	// OpenBufferReader fills a GenericBuffer[T] / RowBuffer[T] and reads it back through GenericReader[T].
 	OpenBufferReader func(kind string, rows any) (*Reader, error)
 	// ReadAll reads the file through GenericReader[T].Read with the batch size.
-	ReadAll func(data []byte, batch int) (any, error)
+	// (reuse: the same destination slice is passed to every call and the rows are copied out shallowly)
+	ReadAll func(data []byte, batch int, reuse bool) (any, error)
 	// ReuseWrite writes a prior file on a GenericWriter[T] (closed, abandoned
 	// without Close, or failing at sink offset failAt), then Reset(s) it onto a
 	// new buffer and writes rows; it returns the second file.
@@ -252,7 +269,8 @@ type Entry struct {
 	// ReadFunc reads the file through parquet.Read[T].
 	ReadFunc func(data []byte) (any, error)
 	// ReaderRead reads the file row by row through Reader.Read(&T).
-	ReaderRead func(data []byte) (any, error)
+	// (reuse: the same variable is passed to every call)
+	ReaderRead func(data []byte, reuse bool) (any, error)
 }
 
 // Catalogue lists the registered types by name.
@@ -336,6 +354,23 @@ func register[T any](name string) {
 				if err := write(op.N); err != nil {
 					return err
 				}
+			case "wr": // the same rows, deconstructed, through WriteRows of the same writer
+				n := op.N
+				if i+n > len(rs) {
+					n = len(rs) - i
+				}
+				prs := make([]parquet.Row, n)
+				for k := range prs {
+					prs[k] = e.Schema.Deconstruct(nil, &rs[i+k])
+				}
+				k, err := gw.WriteRows(prs)
+				if err != nil {
+					return &WriteError{fmt.Errorf("WriteRows(%d rows at %d): %w", n, i, err)}
+				}
+				if k != n {
+					return fmt.Errorf("WriteRows(%d rows at %d) returned %d, nil", n, i, k)
+				}
+				i += n
 			case "f":
 				if err := gw.Flush(); err != nil {
 					return &WriteError{fmt.Errorf("Flush: %w", err)}
@@ -486,7 +521,7 @@ func register[T any](name string) {
 		}
 		return Extract(reflect.ValueOf(&v).Elem(), &e.Node), nil
 	}
-	e.ReadAll = func(data []byte, batch int) (any, error) {
+	e.ReadAll = func(data []byte, batch int, reuse bool) (any, error) {
 		f, err := parquet.OpenFile(bytes.NewReader(data), int64(len(data)))
 		if err != nil {
 			return nil, err
@@ -498,8 +533,11 @@ func register[T any](name string) {
 			batch = 10
 		}
 		zero := 0
+		var buf []T
 		for {
-			buf := make([]T, batch)
+			if buf == nil || !reuse {
+				buf = make([]T, batch)
+			}
 			n, err := r.Read(buf)
 			out = append(out, buf[:n]...)
 			if err != nil {
@@ -523,16 +561,25 @@ func register[T any](name string) {
 			return nil, err
 		}
 		r := parquet.NewGenericReader[T](f)
-		return &Reader{
-			Read: func(n int) (any, error) {
-				buf := make([]T, n)
-				k, err := r.Read(buf)
-				return buf[:k], err
-			},
+		out := &Reader{
 			Seek:    r.SeekToRow,
 			Close:   r.Close,
 			NumRows: r.NumRows(),
-		}, nil
+		}
+		var dst []T
+		out.Read = func(n int) (any, error) {
+			if out.ReuseDst {
+				if len(dst) < n {
+					dst = append(dst, make([]T, n-len(dst))...)
+				}
+				k, err := r.Read(dst[:n])
+				return append([]T(nil), dst[:k]...), err
+			}
+			buf := make([]T, n)
+			k, err := r.Read(buf)
+			return buf[:k], err
+		}
+		return out, nil
 	}
 	e.SortBuffer = func(rows any, batches []int, sorting []parquet.SortingColumn) ([]parquet.Row, error) {
 		rs := rows.([]T)
@@ -589,7 +636,15 @@ func register[T any](name string) {
 		}
 		r := parquet.NewGenericRowGroupReader[T](rg)
 		out := &Reader{NumRows: int64(len(rs))}
+		var dst []T
 		out.Read = func(n int) (any, error) {
+			if out.ReuseDst {
+				if len(dst) < n {
+					dst = append(dst, make([]T, n-len(dst))...)
+				}
+				k, err := r.Read(dst[:n])
+				return append([]T(nil), dst[:k]...), err
+			}
 			buf := make([]T, n)
 			k, err := r.Read(buf)
 			return buf[:k], err
@@ -611,7 +666,7 @@ func register[T any](name string) {
 		rows, err := parquet.Read[T](bytes.NewReader(data), int64(len(data)))
 		return rows, err
 	}
-	e.ReaderRead = func(data []byte) (any, error) {
+	e.ReaderRead = func(data []byte, reuse bool) (any, error) {
 		f, err := parquet.OpenFile(bytes.NewReader(data), int64(len(data)))
 		if err != nil {
 			return nil, err
@@ -619,8 +674,12 @@ func register[T any](name string) {
 		r := parquet.NewReader(f, e.Schema)
 		defer r.Close()
 		var out []T
+		var v T
 		for {
-			var v T
+			if !reuse {
+				var zero T
+				v = zero
+			}
 			err := r.Read(&v)
 			if err != nil {
 				if errors.Is(err, io.EOF) {
@@ -664,10 +723,13 @@ type Reader struct {
 	// Rewrite (buffer-backed readers only) resets the buffer the rows were
 	// read from, writes other rows into it and starts reading it again.
 	Rewrite func(rows any) error
-	Read    func(n int) (any, error)
-	Seek    func(int64) error
-	Close   func() error
-	NumRows int64
+	// ReuseDst makes Read pass the same destination slice to every call and
+	// return a shallow copy of the rows read (the batch loop of the documentation)
+	ReuseDst bool
+	Read     func(n int) (any, error)
+	Seek     func(int64) error
+	Close    func() error
+	NumRows  int64
 }
 
 // WriteError marks an error returned by the library's write path.
@@ -695,4 +757,5 @@ func init() {
 	register[Times]("Times")
 	register[SliceDecimals]("SliceDecimals")
 	register[NestedMaps]("NestedMaps")
+	register[NestedTimes]("NestedTimes")
 }
